@@ -161,16 +161,21 @@ void g_consume(g_world &W, Gen &g, vf::rng r, bool allow_sync, bool helper_resol
 // consumer that is ONE coroutine for the whole sequence: its thread's ready queue stays active between the steps, so anything the
 // library defers through that queue is still outstanding when the next call (and the next argument) arrives. Awaiting styles only.
 template <bool WithArg, typename Gen>
-cocls::async<void> g_consume_coro(g_world &W, Gen &g, vf::rng r) {
+cocls::async<void> g_consume_coro(g_world &W, Gen &g, vf::rng r, bool sync_too = false) {
     int nextarg = 100;
     for (int step = 0; step < W.max_items; step++) {
-        int style = r.chance(1, 2) ? GS_CALL_AWAIT : GS_AWAIT_NEXT;
+        // sync_too: the body never waits for anything, so next()+value() is legitimate inside a coroutine as well (nothing blocks)
+        int style = (sync_too && r.chance(1, 3)) ? GS_NEXT : r.chance(1, 2) ? GS_CALL_AWAIT : GS_AWAIT_NEXT;
         W.styles_used.push_back(style);
         int arg = nextarg++;
         if (WithArg) W.args_sent.push_back(arg);
         long item = -1;
         try {
-            if (style == GS_CALL_AWAIT) {
+            if (style == GS_NEXT) {
+                bool b;
+                if constexpr (WithArg) b = g.next(arg); else b = g.next();
+                if (b) item = g.value();
+            } else if (style == GS_CALL_AWAIT) {
                 if constexpr (WithArg) { cocls::future<int> f = g(arg); bool hv = co_await f.has_value(); if (hv) item = f.value(); }
                 else { cocls::future<int> f = g(); bool hv = co_await f.has_value(); if (hv) item = f.value(); }
             } else {
@@ -188,8 +193,8 @@ cocls::async<void> g_consume_coro(g_world &W, Gen &g, vf::rng r) {
 }
 // ordinary code that starts the consumer coroutine and (single-thread programs) completes the pending awaits itself
 template <bool WithArg, typename Gen>
-void g_consume_by_coro(g_world &W, Gen &g, vf::rng r, bool helper_resolves) {
-    g_consume_coro<WithArg>(W, g, r).detach();
+void g_consume_by_coro(g_world &W, Gen &g, vf::rng r, bool helper_resolves, bool sync_too = false) {
+    g_consume_coro<WithArg>(W, g, r, sync_too).detach();
     unsigned spins = 0; int next_pending = 0;
     while (!W.consumer_done.load(std::memory_order_acquire)) {
         if (helper_resolves) g_polite_wait(spins);
@@ -296,11 +301,11 @@ inline void generator_programs(const vf::opts &o, vf::report &R, vf::team &T, ui
                 vf::rng cr(vf::mix(pseed, 5));
                 if (mt) {
                     T.round([&](int tid) {
-                        if (tid == 0) { if (walk) g_consume_walk(W, *g0, walk - 1); else if (coro_consumer) { if (with_arg) g_consume_by_coro<true>(W, *g1, cr, true); else g_consume_by_coro<false>(W, *g0, cr, true); } else if (with_arg) g_consume<true>(W, *g1, cr, allow_sync, true); else g_consume<false>(W, *g0, cr, allow_sync, true); }
+                        if (tid == 0) { if (walk) g_consume_walk(W, *g0, walk - 1); else if (coro_consumer) { if (with_arg) g_consume_by_coro<true>(W, *g1, cr, true, !has_pending); else g_consume_by_coro<false>(W, *g0, cr, true, !has_pending); } else if (with_arg) g_consume<true>(W, *g1, cr, allow_sync, true); else g_consume<false>(W, *g0, cr, allow_sync, true); }
                         else if (tid == 1) g_resolver(W, pseed, tid);
                     });
                 } else {
-                    if (walk) g_consume_walk(W, *g0, walk - 1); else if (coro_consumer) { if (with_arg) g_consume_by_coro<true>(W, *g1, cr, false); else g_consume_by_coro<false>(W, *g0, cr, false); } else if (with_arg) g_consume<true>(W, *g1, cr, allow_sync, false); else g_consume<false>(W, *g0, cr, allow_sync, false);
+                    if (walk) g_consume_walk(W, *g0, walk - 1); else if (coro_consumer) { if (with_arg) g_consume_by_coro<true>(W, *g1, cr, false, !has_pending); else g_consume_by_coro<false>(W, *g0, cr, false, !has_pending); } else if (with_arg) g_consume<true>(W, *g1, cr, allow_sync, false); else g_consume<false>(W, *g0, cr, allow_sync, false);
                 }
                 if (!W.consumer_done.load()) err = "consumer never completed although every awaited operation was resolved";
                 // drop the generator now (parked at a yield, or finished)
@@ -387,7 +392,7 @@ inline void aggregator_programs(const vf::opts &o, vf::report &R, vf::team &T, u
             vf::rng cr(vf::mix(pseed, 5));
             if (mt) {
                 T.round([&](int tid) {
-                    if (tid == 0) { if (coro_consumer) { if (with_arg) g_consume_by_coro<true>(W, *g1, cr, true); else g_consume_by_coro<false>(W, *g0, cr, true); } else if (with_arg) g_consume<true>(W, *g1, cr, allow_sync, true); else g_consume<false>(W, *g0, cr, allow_sync, true); }
+                    if (tid == 0) { if (coro_consumer) { if (with_arg) g_consume_by_coro<true>(W, *g1, cr, true, !has_pending); else g_consume_by_coro<false>(W, *g0, cr, true, !has_pending); } else if (with_arg) g_consume<true>(W, *g1, cr, allow_sync, true); else g_consume<false>(W, *g0, cr, allow_sync, true); }
                     else if (tid == 1) g_resolver(W, pseed, tid);
                 });
             } else {
